@@ -26,8 +26,10 @@ import Fcgi.Props.C07E2E
 import Fcgi.Props.C07Authorizer
 import Fcgi.Props.C07BufRead
 import Fcgi.Props.C07BufRead2
+import Fcgi.Props.C07Unbounded
 import Fcgi.Props.C08
 import Fcgi.Props.C08Inv
+import Fcgi.Props.C08Replies
 import Fcgi.Props.C09
 import Fcgi.Props.C09E2E
 import Fcgi.Props.C10
@@ -51,6 +53,7 @@ import Fcgi.Props.C12E2E5
 import Fcgi.Props.C12E2E6
 import Fcgi.Props.C12E2E7
 import Fcgi.Props.C12E2E8
+import Fcgi.Props.C12E2E9
 import Fcgi.Props.C12Fuel
 import Fcgi.Props.C13
 import Fcgi.Props.C13Conn
@@ -67,7 +70,6 @@ import Fcgi.Props.C17
 import Fcgi.Props.C18
 import Fcgi.Props.C19
 import Fcgi.Props.C20
-import Fcgi.Props.C12E2E9
 
 /-!
 # Headline — one checked statement per property
@@ -93,7 +95,8 @@ error answers (arbitrary read/write splitting, transient Pendings) — faults ar
 management GetValues bodies whose undecodable tail fits the buffer; the CANONICAL handler families
 only (named per clause); single request unless a clause says otherwise; side conditions such as
 `4·|input| + 17 ≤ 100000` are artefacts of the proofs, not of the model (the model's fuels grow with
-the input) — they cap those clauses at ≈ 25 000 wire bytes (being lifted in `Props/C07Unbounded.lean`).
+the input) — they cap those clauses at ≈ 25 000 wire bytes; the C07 conjuncts are the `_unbounded` versions of
+`Props/C07Unbounded.lean`, which have no such bound.
 
 So this file type-checks only as long as the cited theorems keep stating what is written here.
 Nothing new is proved.  Everything is about the Lean MODEL of the crate; that the model is the code
@@ -1462,29 +1465,34 @@ end Fcgi.Headline
 * “for every way the transport splits or delays reads and writes; handler families” — every e2e clause: `Ben
   t` (arbitrary splitting, transient Pendings, no faults) and the canonical handler family: `readAll` + one
   Stdout `write_all` + `ret` (Clauses 1–4), non-reading / prefix-reading (6–9), `AsyncBufRead` handlers
-  (Clauses 10–12).  Size side conditions (`… ≤ 100000`) are artefacts of the proofs (being removed in
-  `Props/C07Unbounded.lean`).
+  (Clauses 10–12).  Clauses 1–4, 6, 7, 10–12 are the `_unbounded` versions: no bound on the wire length,
+  `hhf` bounds only the handler's own write (a harness-script fuel); Clauses 8–9 (`authorizer_tail_e2e`,
+  `unread_filter_e2e`) still carry `6·|input| + 26 ≤ 100000`.
 
 **The conjuncts of `C07_headline`.**
-1. `C07E.single_request_e2e_full_holds` — Responder, canonical handler, any benign transport: one handler
-   start with the spec request, reads = stream content, log = replies ++ Stdout ++ replies ++ [Stdout∅,
-   Stderr∅, EndRequest(id, st)], RET or parked
-2. `C07E.single_request_e2e_authorizer` — the same for an Authorizer
-3. `C07E.single_request_e2e_filter` — the same for a Filter (two input streams)
-4. `C07E.k_requests_e2e` — k keep-alive requests of mixed roles on one connection, closed-loop client
+1. `C07E.single_request_e2e_unbounded` — Responder, canonical handler, any benign transport, ANY wire
+   length: one handler start with the spec request, reads = stream content, log = replies ++ Stdout ++ replies
+   ++ [Stdout∅, Stderr∅, EndRequest(id, st)], RET or parked (no size bound on the wire:
+   `Props/C07Unbounded.lean`)
+2. `C07E.single_request_e2e_authorizer_unbounded` — the same for an Authorizer
+3. `C07E.single_request_e2e_filter_unbounded` — the same for a Filter (two input streams)
+4. `C07E.k_requests_e2e_unbounded` — k keep-alive requests of mixed roles on one connection, closed-loop
+   client, no size bound
 5. `HeadlineExtra.C07_reuse_only_with_keepconn` = `C07.reuse_iff` + `C07.close_writes_epilogue` — the
    connection goes on from `close` ONLY IF the request had KEEP_CONN, no writer was alive, and `close` wrote
    everything pending plus the epilogue with the handler's status (step level; both directions at run level are
    the `final` fields of Clauses 1–4)
-6. `C07U.unread_request_e2e` — handler reads nothing: served, the unread stream goes to the next request
-   parser
-7. `C07U.unread_prefix_e2e_full_holds` — handler reads a strict prefix
+6. `C07U.unread_request_e2e_unbounded` — handler reads nothing: served, the unread stream goes to the next
+   request parser (no size bound)
+7. `C07U.unread_prefix_e2e_unbounded` — handler reads a strict prefix (no size bound)
 8. `C07U.authorizer_tail_e2e` — Authorizer followed by more traffic
 9. `C07U.unread_filter_e2e` — a Filter left wholly unread
-10. `C07B.single_request_bufread_e2e` — a handler that drains Stdin through `AsyncBufRead`
-   (`fill_buf`/`consume`)
-11. `C07B.bufread_then_readall_e2e` — `fill_buf`/`consume` followed by `read_to_end`
-12. `C07B.bufread_part_e2e` — a handler that consumes only part of what `fill_buf` showed
+10. `C07B.single_request_bufread_e2e_unbounded` — a handler that drains Stdin through `AsyncBufRead`
+   (`fill_buf`/`consume`), no size bound
+11. `C07B.bufread_then_readall_e2e_unbounded` — `fill_buf`/`consume` followed by `read_to_end`, no size
+   bound
+12. `C07B.bufread_part_e2e_unbounded` — a handler that consumes only part of what `fill_buf` showed, no size
+   bound
 
 **Modelling assumptions (obligations.json).**
 * executor fairness, real sockets and wakers beyond the harness' flag/counting wakers are outside the model
@@ -1505,27 +1513,24 @@ end Fcgi.Headline
 section
 namespace Fcgi.C07E
 open Fcgi Fcgi.Req Fcgi.Str Fcgi.Async Fcgi.Run Fcgi.Spec Fcgi.E2E
-/-- Responder, canonical handler, any benign transport: one handler start with the spec request, reads = stream content, log = replies ++ Stdout ++ replies ++ [Stdout∅, Stderr∅, EndRequest(id, st)], RET or parked  (= `Fcgi.C07E.single_request_e2e_full_holds`, `Props/C07E2E.lean`) -/
+/-- Responder, canonical handler, any benign transport, ANY wire length: one handler start with the spec request, reads = stream content, log = replies ++ Stdout ++ replies ++ [Stdout∅, Stderr∅, EndRequest(id, st)], RET or parked (no size bound on the wire: `Props/C07Unbounded.lean`)  (= `Fcgi.C07E.single_request_e2e_unbounded`, `Props/C07Unbounded.lean`) -/
 def C07Clause1 : Prop :=
-  ∀ (p : Preamble) (recs : List Rec) (content : Bytes) (srecs : List Rec) (b mc : Nat) (data : Bytes)
-    (st : ExitStatus) (t : Transport) (fuel : Nat),
-    WellFormedPreamble p recs → p.role = 1 →
-    (∀ q ∈ p.pairs, (NV.enc q).length ≤ alignedBufsize b) → NoiseFits (alignedBufsize b) recs →
-    StreamRecs p.id 5 content srecs → NoiseFits (alignedBufsize b) srecs →
-    t.input = serAll recs ++ serAll srecs → Ben t → hsCount t.events = 0 →
-    t.rd.length + t.wr.length + 1 ≤ fuel →
-    4 * t.input.length + 17 ≤ 100000 → alignedBufsize b / 32 + wcost data.length + 12 ≤ 1000 →
+  ∀ {p : Preamble} {recs : List Rec} {content : Bytes} {srecs : List Rec}
+    {b mc : Nat} {data : Bytes} {st : ExitStatus} {t : Transport} {fuel : Nat}
+    (hwf : WellFormedPreamble p recs) (hrole : p.role = 1)
+    (hpairs : ∀ q ∈ p.pairs, (NV.enc q).length ≤ alignedBufsize b)
+    (hnoise : NoiseFits (alignedBufsize b) recs)
+    (hs : StreamRecs p.id 5 content srecs) (hsn : NoiseFits (alignedBufsize b) srecs)
+    (hin : t.input = serAll recs ++ serAll srecs) (hben : Ben t) (hev : hsCount t.events = 0)
+    (hfuel : t.rd.length + t.wr.length + 1 ≤ fuel)
+    (hhf : wcost data.length + 12 ≤ 1000),
     ∃ c' fin O₁ O₂, runTask fuel (conn0 b mc t data st) 0 none = (c', fin) ∧
       O₁ ++ O₂ = owedStream p.id 5 mc srecs ∧
-      c'.env.tr.wlog = t.wlog ++ (owedPreamble p mc recs ++ O₁ ++ streamRecords 6 p.id data ++ O₂ ++
-        epilogue p.id st) ∧
-      (fin = "RET" ∨ fin = "STALL") ∧
-      hsCount c'.env.tr.events = 1 ∧ startEvent p.request ∈ c'.env.tr.events ∧
-      readEvent content ∈ c'.env.tr.events
+      OutcomeN p content b mc t.wlog (expectedLogN p recs mc data st O₁ O₂) t c' fin
 
 theorem C07Clause1_holds : C07Clause1 := by
   unfold C07Clause1
-  exact @single_request_e2e_full_holds
+  exact @single_request_e2e_unbounded
 
 end Fcgi.C07E
 end
@@ -1533,7 +1538,7 @@ end
 section
 namespace Fcgi.C07E
 open Fcgi Fcgi.Req Fcgi.Str Fcgi.Async Fcgi.Run Fcgi.Spec Fcgi.E2E
-/-- the same for an Authorizer  (= `Fcgi.C07E.single_request_e2e_authorizer`, `Props/C07E2E.lean`) -/
+/-- the same for an Authorizer  (= `Fcgi.C07E.single_request_e2e_authorizer_unbounded`, `Props/C07Unbounded.lean`) -/
 def C07Clause2 : Prop :=
   ∀ {p : Preamble} {recs : List Rec}
     {b mc : Nat} {data : Bytes} {st : ExitStatus} {t : Transport} {fuel : Nat}
@@ -1542,14 +1547,13 @@ def C07Clause2 : Prop :=
     (hnoise : NoiseFits (alignedBufsize b) recs)
     (hin : t.input = serAll recs) (hben : Ben t) (hev : hsCount t.events = 0)
     (hfuel : t.rd.length + t.wr.length + 1 ≤ fuel)
-    (hsize : 4 * t.input.length + 17 ≤ 100000)
     (hhf : wcost data.length + 4 ≤ 1000),
     ∃ c' fin, runTask fuel (connS b mc t [(canonicalA data st, true)]) 0 none = (c', fin) ∧
       OutcomeG p [] b mc t.wlog (expectedLog p recs mc data st) t c' fin
 
 theorem C07Clause2_holds : C07Clause2 := by
   unfold C07Clause2
-  exact @single_request_e2e_authorizer
+  exact @single_request_e2e_authorizer_unbounded
 
 end Fcgi.C07E
 end
@@ -1557,7 +1561,7 @@ end
 section
 namespace Fcgi.C07E
 open Fcgi Fcgi.Req Fcgi.Str Fcgi.Async Fcgi.Run Fcgi.Spec Fcgi.E2E
-/-- the same for a Filter (two input streams)  (= `Fcgi.C07E.single_request_e2e_filter`, `Props/C07E2E.lean`) -/
+/-- the same for a Filter (two input streams)  (= `Fcgi.C07E.single_request_e2e_filter_unbounded`, `Props/C07Unbounded.lean`) -/
 def C07Clause3 : Prop :=
   ∀ {p : Preamble} {recs : List Rec} {content : Bytes} {srecs : List Rec}
     {content2 : Bytes} {drecs : List Rec}
@@ -1569,15 +1573,14 @@ def C07Clause3 : Prop :=
     (hd : StreamRecs p.id 8 content2 drecs) (hdn : NoiseFits (alignedBufsize b) drecs)
     (hin : t.input = serAll recs ++ (serAll srecs ++ serAll drecs)) (hben : Ben t) (hev : hsCount t.events = 0)
     (hfuel : t.rd.length + t.wr.length + 1 ≤ fuel)
-    (hsize : 4 * t.input.length + 17 ≤ 100000)
-    (hhf : alignedBufsize b / 16 + wcost data.length + 24 ≤ 1000),
+    (hhf : wcost data.length + 24 ≤ 1000),
     ∃ c' fin O₁ O₂, runTask fuel (connS b mc t [(canonicalF data st, true)]) 0 none = (c', fin) ∧
       O₁ ++ O₂ = owedStream p.id 5 mc srecs ++ owedStream p.id 8 mc drecs ∧
       OutcomeG p [content, content2] b mc t.wlog (expectedLogN p recs mc data st O₁ O₂) t c' fin
 
 theorem C07Clause3_holds : C07Clause3 := by
   unfold C07Clause3
-  exact @single_request_e2e_filter
+  exact @single_request_e2e_filter_unbounded
 
 end Fcgi.C07E
 end
@@ -1585,10 +1588,10 @@ end
 section
 namespace Fcgi.C07E
 open Fcgi Fcgi.Req Fcgi.Str Fcgi.Async Fcgi.Run Fcgi.Spec Fcgi.E2E
-/-- k keep-alive requests of mixed roles on one connection, closed-loop client  (= `Fcgi.C07E.k_requests_e2e`, `Props/C07E2E.lean`) -/
+/-- k keep-alive requests of mixed roles on one connection, closed-loop client, no size bound  (= `Fcgi.C07E.k_requests_e2e_unbounded`, `Props/C07Unbounded.lean`) -/
 def C07Clause4 : Prop :=
   ∀ {b mc : Nat} (q : Sent) (qs : List Sent) {t : Transport} {fuel : Nat}
-    (hok : ∀ q' ∈ q :: qs, q'.OK b)
+    (hok : ∀ q' ∈ q :: qs, q'.OKu b)
     (hkeep : ∀ q' ∈ (q :: qs).dropLast, q'.p.flags.toNat % 2 = 1)
     (hin : t.input = q.wire) (hben : Ben t) (hem : t.endMode = .pend) (hev : hsCount t.events = 0)
     (hfuel : t.rd.length + t.wr.length + 1 ≤ fuel),
@@ -1604,7 +1607,7 @@ def C07Clause4 : Prop :=
 
 theorem C07Clause4_holds : C07Clause4 := by
   unfold C07Clause4
-  exact @k_requests_e2e
+  exact @k_requests_e2e_unbounded
 
 end Fcgi.C07E
 end
@@ -1636,7 +1639,7 @@ end
 section
 namespace Fcgi.C07U
 open Fcgi Fcgi.Req Fcgi.Str Fcgi.Async Fcgi.Run Fcgi.Spec Fcgi.E2E Fcgi.C07E
-/-- handler reads nothing: served, the unread stream goes to the next request parser  (= `Fcgi.C07U.unread_request_e2e`, `Props/C07Unread.lean`) -/
+/-- handler reads nothing: served, the unread stream goes to the next request parser (no size bound)  (= `Fcgi.C07U.unread_request_e2e_unbounded`, `Props/C07Unbounded.lean`) -/
 def C07Clause6 : Prop :=
   ∀ {p : Preamble} {recs : List Rec} {content : Bytes} {srecs : List Rec}
     {b mc : Nat} {data : Bytes} {st : ExitStatus} {hs : List HOp} {more : List (List HOp × Bool)}
@@ -1649,7 +1652,7 @@ def C07Clause6 : Prop :=
     (hnb : ∀ r ∈ srecs, r.rtype.toNat ≠ RT.beginRequest)
     (hin : t.input = serAll recs ++ serAll srecs) (hben : Ben t) (hev : hsCount t.events = 0)
     (hfuel : t.rd.length + t.wr.length + 1 ≤ fuel)
-    (hsize : 6 * t.input.length + 26 ≤ 100000) (hhf : wcost data.length + 4 ≤ 1000),
+    (hhf : wcost data.length + 4 ≤ 1000),
     ∃ c' fin, runTask fuel (connS b mc t ((hs, true) :: more)) 0 none = (c', fin) ∧
       UnreadOutcome p srecs b mc
         (t.wlog ++ (owedPreamble p mc recs ++ streamRecords 6 p.id data ++ epilogue p.id st ++
@@ -1657,7 +1660,7 @@ def C07Clause6 : Prop :=
 
 theorem C07Clause6_holds : C07Clause6 := by
   unfold C07Clause6
-  exact @unread_request_e2e
+  exact @unread_request_e2e_unbounded
 
 end Fcgi.C07U
 end
@@ -1665,24 +1668,24 @@ end
 section
 namespace Fcgi.C07U
 open Fcgi Fcgi.Req Fcgi.Str Fcgi.Async Fcgi.Run Fcgi.Spec Fcgi.E2E Fcgi.C07E
-/-- handler reads a strict prefix  (= `Fcgi.C07U.unread_prefix_e2e_full_holds`, `Props/C07Unread.lean`) -/
+/-- handler reads a strict prefix (no size bound)  (= `Fcgi.C07U.unread_prefix_e2e_unbounded`, `Props/C07Unbounded.lean`) -/
 def C07Clause7 : Prop :=
-  ∀ (p : Preamble) (recs : List Rec) (content : Bytes) (srecs : List Rec) (b mc n : Nat) (st : ExitStatus)
-    (t : Transport) (fuel : Nat),
-    WellFormedPreamble p recs → p.role = 1 → p.flags.toNat % 2 = 1 →
-    (∀ q ∈ p.pairs, (NV.enc q).length ≤ alignedBufsize b) → NoiseFits (alignedBufsize b) recs →
-    StreamRecs p.id 5 content srecs → NoiseFits (alignedBufsize b) srecs →
-    (∀ r ∈ srecs, r.rtype.toNat ≠ RT.beginRequest) →
-    t.input = serAll recs ++ serAll srecs → Ben t → t.endMode = .pend → hsCount t.events = 0 →
-    t.rd.length + t.wr.length + 1 ≤ fuel → 6 * t.input.length + 26 ≤ 100000 →
-    ∃ c' s₁ s₂ O₁ O₂, runTask fuel (connS b mc t [([.read n, .ret st], true)]) 0 none = (c', "STALL") ∧
-      srecs = s₁ ++ s₂ ∧ O₁ ++ O₂ = owedStream p.id 5 mc s₁ ∧
-      c'.env.tr.wlog = t.wlog ++ (owedPreamble p mc recs ++ O₁ ++ O₂ ++ epilogue p.id st ++ idleOwed mc s₂) ∧
-      hsCount c'.env.tr.events = 1 ∧ c'.env.tr.input = []
+  ∀ {p : Preamble} {recs : List Rec} {content : Bytes} {srecs : List Rec}
+    {b mc n : Nat} {st : ExitStatus} {more : List (List HOp × Bool)} {t : Transport} {fuel : Nat}
+    (hn : 0 < n)
+    (hwf : WellFormedPreamble p recs) (hrole : p.role = 1) (hk : p.flags.toNat % 2 = 1)
+    (hpairs : ∀ q ∈ p.pairs, (NV.enc q).length ≤ alignedBufsize b)
+    (hnoise : NoiseFits (alignedBufsize b) recs)
+    (hstr : StreamRecs p.id 5 content srecs) (hsn : NoiseFits (alignedBufsize b) srecs)
+    (hnb : ∀ r ∈ srecs, r.rtype.toNat ≠ RT.beginRequest)
+    (hin : t.input = serAll recs ++ serAll srecs) (hben : Ben t) (hev : hsCount t.events = 0)
+    (hfuel : t.rd.length + t.wr.length + 1 ≤ fuel),
+    ∃ c' fin s₁ s₂ d, runTask fuel (connS b mc t ((readSome n st, true) :: more)) 0 none = (c', fin) ∧
+      PrefixOutcome p recs content srecs s₁ s₂ d b mc st more t c' fin
 
 theorem C07Clause7_holds : C07Clause7 := by
   unfold C07Clause7
-  exact @unread_prefix_e2e_full_holds
+  exact @unread_prefix_e2e_unbounded
 
 end Fcgi.C07U
 end
@@ -1743,7 +1746,7 @@ end
 section
 namespace Fcgi.C07B
 open Fcgi Fcgi.Req Fcgi.Str Fcgi.Async Fcgi.Run Fcgi.Spec Fcgi.E2E Fcgi.C07E Fcgi.C07U
-/-- a handler that drains Stdin through `AsyncBufRead` (`fill_buf`/`consume`)  (= `Fcgi.C07B.single_request_bufread_e2e`, `Props/C07BufRead.lean`) -/
+/-- a handler that drains Stdin through `AsyncBufRead` (`fill_buf`/`consume`), no size bound  (= `Fcgi.C07B.single_request_bufread_e2e_unbounded`, `Props/C07Unbounded.lean`) -/
 def C07Clause10 : Prop :=
   ∀ {p : Preamble} {recs : List Rec} {content : Bytes} {srecs : List Rec}
     {b mc n k : Nat} {data : Bytes} {st : ExitStatus} {more : List (List HOp × Bool)} {t : Transport} {fuel : Nat}
@@ -1754,7 +1757,6 @@ def C07Clause10 : Prop :=
     (hk : 0 < k) (hn : content.length ≤ n)
     (hin : t.input = serAll recs ++ serAll srecs) (hben : Ben t) (hev : hsCount t.events = 0)
     (hfuel : t.rd.length + t.wr.length + 1 ≤ fuel)
-    (hsize : 6 * t.input.length + 26 ≤ 100000)
     (hhf : 2 * n + wcost data.length + 10 ≤ 1000),
     ∃ c' fin O₁ O₂ shown pad res,
       runTask fuel (connS b mc t ((bscript n k data st, true) :: more)) 0 none = (c', fin) ∧
@@ -1763,7 +1765,7 @@ def C07Clause10 : Prop :=
 
 theorem C07Clause10_holds : C07Clause10 := by
   unfold C07Clause10
-  exact @single_request_bufread_e2e
+  exact @single_request_bufread_e2e_unbounded
 
 end Fcgi.C07B
 end
@@ -1771,7 +1773,7 @@ end
 section
 namespace Fcgi.C07B
 open Fcgi Fcgi.Req Fcgi.Str Fcgi.Async Fcgi.Run Fcgi.Spec Fcgi.E2E Fcgi.C07E Fcgi.C07U
-/-- `fill_buf`/`consume` followed by `read_to_end`  (= `Fcgi.C07B.bufread_then_readall_e2e`, `Props/C07BufRead2.lean`) -/
+/-- `fill_buf`/`consume` followed by `read_to_end`, no size bound  (= `Fcgi.C07B.bufread_then_readall_e2e_unbounded`, `Props/C07Unbounded.lean`) -/
 def C07Clause11 : Prop :=
   ∀ {p : Preamble} {recs : List Rec} {content : Bytes} {srecs : List Rec}
     {b mc n k : Nat} {data : Bytes} {st : ExitStatus} {more : List (List HOp × Bool)} {t : Transport} {fuel : Nat}
@@ -1781,7 +1783,6 @@ def C07Clause11 : Prop :=
     (hs : StreamRecs p.id 5 content srecs) (hsn : NoiseFits (alignedBufsize b) srecs)
     (hin : t.input = serAll recs ++ serAll srecs) (hben : Ben t) (hev : hsCount t.events = 0)
     (hfuel : t.rd.length + t.wr.length + 1 ≤ fuel)
-    (hsize : 6 * t.input.length + 26 ≤ 100000)
     (hhf : 2 * n + wcost data.length + 20 ≤ 1000),
     ∃ c' fin O₁ O₂ shown acc pad res,
       runTask fuel (connS b mc t ((bscript2 n k data st, true) :: more)) 0 none = (c', fin) ∧
@@ -1790,7 +1791,7 @@ def C07Clause11 : Prop :=
 
 theorem C07Clause11_holds : C07Clause11 := by
   unfold C07Clause11
-  exact @bufread_then_readall_e2e
+  exact @bufread_then_readall_e2e_unbounded
 
 end Fcgi.C07B
 end
@@ -1798,7 +1799,7 @@ end
 section
 namespace Fcgi.C07B
 open Fcgi Fcgi.Req Fcgi.Str Fcgi.Async Fcgi.Run Fcgi.Spec Fcgi.E2E Fcgi.C07E Fcgi.C07U
-/-- a handler that consumes only part of what `fill_buf` showed  (= `Fcgi.C07B.bufread_part_e2e`, `Props/C07BufRead2.lean`) -/
+/-- a handler that consumes only part of what `fill_buf` showed, no size bound  (= `Fcgi.C07B.bufread_part_e2e_unbounded`, `Props/C07Unbounded.lean`) -/
 def C07Clause12 : Prop :=
   ∀ {p : Preamble} {recs : List Rec} {content : Bytes} {srecs : List Rec}
     {b mc n k : Nat} {st : ExitStatus} {more : List (List HOp × Bool)} {t : Transport} {fuel : Nat}
@@ -1809,14 +1810,14 @@ def C07Clause12 : Prop :=
     (hnb : ∀ r ∈ srecs, r.rtype.toNat ≠ RT.beginRequest)
     (hin : t.input = serAll recs ++ serAll srecs) (hben : Ben t) (hev : hsCount t.events = 0)
     (hfuel : t.rd.length + t.wr.length + 1 ≤ fuel)
-    (hsize : 6 * t.input.length + 26 ≤ 100000) (hhf : 2 * n + 10 ≤ 1000),
+    (hhf : 2 * n + 10 ≤ 1000),
     ∃ c' fin s₁ s₂ shown,
       runTask fuel (connS b mc t ((rounds n k ++ [.ret st], true) :: more)) 0 none = (c', fin) ∧
       BufReadPartOutcome p recs content srecs s₁ s₂ k shown b mc st more t c' fin
 
 theorem C07Clause12_holds : C07Clause12 := by
   unfold C07Clause12
-  exact @bufread_part_e2e
+  exact @bufread_part_e2e_unbounded
 
 end Fcgi.C07B
 end
@@ -1857,12 +1858,20 @@ end Fcgi.Headline
   transport, ANY handler script; executor level: Clause 6.  EXEMPTION inside `OwesNothing`: `close()` parked
   in `record_boundary()` may hold unflushed replies (the crate's documented unflushed read) — Clause 4: only
   inside a record the peer has begun.
+* “… every reply owed for those records has been handed to the transport (tied to the WRITE LOG)” — Clauses
+  7–12 (`Props/C08Replies.lean`), for ANY transport and any withholding peer: (a) before the first handler
+  the log is exactly the initial log ++ the reference replies for the bytes consumed (Clause 7; queries:
+  Clause 8); (b) parked in a handler read every prescribed reply is in the log (Clause 9); (c)
+  `record_boundary()` never flushes (Clause 10), it is the only place where generated replies can be held
+  back at a stall, and only mid-record (Clause 11); without that exemption the statement is false (Clause
+  12).
 * “a client that sends a management query … and waits for the result always receives it …, and the two sides
-  can never wait on each other indefinitely” — NOT a theorem.  Clause 5 (`stall_means_gate_closed`) is
-  definitional of the wake-accurate executor (a STALL leaves the next segment's gate closed); that the
-  property's peer (gate = 'the reply to my last query is in the log') can never be stalled with segments
-  left is carried by the differential run (never FUEL/STALL).  Without 'output mutex free' Clause 6 is false
-  (`…_full_false`).
+  can never wait on each other indefinitely” — With the ledger, 'owes nothing' means 'the reply is in the
+  log': whenever the task waits for input, the reply to every query it has consumed is in the log (Clauses
+  7–9, 11), so a peer whose gate is 'the reply to my last query is in the log' finds its gate open — except
+  for a query swallowed by `record_boundary()` mid-record (Clause 12), which the whole-record peer of the
+  property completes.  What is NOT a theorem: fairness of the executor, i.e. that the task is polled again
+  and that the peer's gate is re-examined (Clause 5 is definitional of the wake-accurate executor).
 
 **The conjuncts of `C08_headline`.**
 1. `C08Inv.reachable_inv` — every connection state reachable by `runTask` satisfies the whole-poll invariant
@@ -1875,6 +1884,22 @@ end Fcgi.Headline
    see the not-proved list)
 6. `C08Inv.runTask_stall_owes_nothing_partial` — executor: at a STALL with the output mutex free the read
    waker is parked, nothing is owed, everything read is processed
+7. `C08R.stall_in_parse_request_log` — the ledger, (a): a stall before any handler start — the task sits in
+   `parse_request`'s read, the transport is drained, and the log is the initial log followed by EXACTLY the
+   replies the reference prescribes for the bytes consumed so far (any transport, any peer)
+8. `C08R.idle_queries_answered` — … in particular every management query / unknown-type record among the
+   complete idle records consumed has been answered, in order, at every such stall
+9. `C08R.handler_read_replies_in_log` — the ledger, (b): parked in a handler read (no `set_stream` since the
+   handler started): every reply prescribed for the bytes the stream parser was given is in the log behind the
+   log at handler start, in order (sublist: the handler's own records may be interleaved)
+10. `C08R.record_boundary_holds_back` — the ledger, (c): the loop of `record_boundary()` writes nothing —
+   when it parks, what it generated is still in the reply buffer
+11. `C08R.stall_pending_output_partial` — at a stall with the mutex free the ONLY place where generated
+   reply bytes can still sit in a buffer is `close()` parked in `record_boundary()`, and then the parser is in
+   the middle of a record
+12. `C08R.stall_log_has_all_owed_replies_full_false` — … and that exception is real: "nothing generated is
+   unflushed at such a stall" is refuted (handler returns mid-record, `record_boundary()` runs over a complete
+   GetValues and parks inside the next record; crate and model agree)
 
 **Modelling assumptions (obligations.json).**
 * the peer is the property's peer: whole records, one request outstanding, withholding after a query until
@@ -1888,7 +1913,8 @@ end Fcgi.Headline
   has begun, which a whole-record peer completes
 
 **Not proved as theorems — carried by the differential run + oracle, or trusted.**
-* the liveness sentence (the query is always answered; no mutual waiting): differential run + oracle only
+* fairness / progress of the executor (the task is polled again; the peer's next gate opens once the reply
+  is in the log): observed by the differential run (never FUEL/STALL), not a theorem
 * the peer is the property's peer (whole records, one request outstanding)
 
 -/
@@ -2000,6 +2026,116 @@ end Executor
 end Fcgi.C08Inv
 end
 
+section
+namespace Fcgi.C08R
+open Fcgi Fcgi.Req Fcgi.Str Fcgi.Async Fcgi.Run Fcgi.Spec
+/-- the ledger, (a): a stall before any handler start — the task sits in `parse_request`'s read, the transport is drained, and the log is the initial log followed by EXACTLY the replies the reference prescribes for the bytes consumed so far (any transport, any peer)  (= `Fcgi.C08R.stall_in_parse_request_log`, `Props/C08Replies.lean`) -/
+def C08Clause7 : Prop :=
+  ∀ {b mc : Nat} {env : Run.Env} {scripts : List (List HOp × Bool)}
+    {stop : Bool} {fuel n : Nat} {sa : Option Nat} {c' : Conn}
+    (h : runTask fuel { phase := .parseReq (Req.Parser.new b mc) .start, env, scripts, stop } n sa
+      = (c', "STALL"))
+    (hm : c'.env.mutex = none) (hhs : hsCount c'.env.tr.events = hsCount env.tr.events),
+    ∃ rp D, c'.phase = .parseReq rp .reading ∧ c'.env.tr.input = [] ∧
+      D ++ (c'.env.segs.map (·.2)).flatten = wireOf env ∧
+      c'.env.tr.wlog = env.tr.wlog ++ (C04H.reqRef mc D).out ∧
+      rp.state = (run .header D mc).st ∧ rp.input = (run .header D mc).rem
+
+theorem C08Clause7_holds : C08Clause7 := by
+  unfold C08Clause7
+  exact @stall_in_parse_request_log
+
+end Fcgi.C08R
+end
+
+section
+namespace Fcgi.C08R
+open Fcgi Fcgi.Req Fcgi.Str Fcgi.Async Fcgi.Run Fcgi.Spec
+/-- … in particular every management query / unknown-type record among the complete idle records consumed has been answered, in order, at every such stall  (= `Fcgi.C08R.idle_queries_answered`, `Props/C08Replies.lean`) -/
+def C08Clause8 : Prop :=
+  ∀ {b mc : Nat} {env : Run.Env} {scripts : List (List HOp × Bool)}
+    {stop : Bool} {fuel n : Nat} {sa : Option Nat} {c' : Conn}
+    (h : runTask fuel { phase := .parseReq (Req.Parser.new b mc) .start, env, scripts, stop } n sa
+      = (c', "STALL"))
+    (hm : c'.env.mutex = none) (hhs : hsCount c'.env.tr.events = hsCount env.tr.events)
+    {us : List Rec} (hus : ∀ u ∈ us, IdleNoise u) {y : Bytes}
+    (hwire : wireOf env = serAll us ++ y)
+    (hcons : (serAll us).length + (c'.env.segs.map (·.2)).flatten.length ≤ (wireOf env).length),
+    ∃ more, c'.env.tr.wlog = env.tr.wlog ++ us.flatMap (owed none mc) ++ more
+
+theorem C08Clause8_holds : C08Clause8 := by
+  unfold C08Clause8
+  exact @idle_queries_answered
+
+end Fcgi.C08R
+end
+
+section
+namespace Fcgi.C08R
+open Fcgi Fcgi.Req Fcgi.Str Fcgi.Async Fcgi.Run Fcgi.Spec
+/-- the ledger, (b): parked in a handler read (no `set_stream` since the handler started): every reply prescribed for the bytes the stream parser was given is in the log behind the log at handler start, in order (sublist: the handler's own records may be interleaved)  (= `Fcgi.C08R.handler_read_replies_in_log`, `Props/C08Replies.lean`) -/
+def C08Clause9 : Prop :=
+  ∀ {E : Str.Cfg} {sp0 sp : Str.Parser} {ops : List Op} {wl0 wl : Bytes}
+    (h0 : C03SI.Start E sp0) (ho0 : sp0.output = []) (h : GLed sp0 ops sp wl0 wl)
+    (hl : LegalAll sp0 ops) (hns : NoSet ops) (hq : C08Inv.Quiescent sp) (ho : sp.output = []),
+    ∃ mix, wl = wl0 ++ mix ∧ List.Sublist (C04H.streamReplies E (sp0.raw ++ Str.fedBytes ops)) mix
+
+theorem C08Clause9_holds : C08Clause9 := by
+  unfold C08Clause9
+  exact @handler_read_replies_in_log
+
+end Fcgi.C08R
+end
+
+section
+namespace Fcgi.C08R
+open Fcgi Fcgi.Req Fcgi.Str Fcgi.Async Fcgi.Run Fcgi.Spec
+/-- the ledger, (c): the loop of `record_boundary()` writes nothing — when it parks, what it generated is still in the reply buffer  (= `Fcgi.C08R.record_boundary_holds_back`, `Props/C08Replies.lean`) -/
+def C08Clause10 : Prop :=
+  ∀ {fuel : Nat} {sp sp' : Str.Parser} {new : Bytes} {t t' : Transport}
+    (h : boundaryLoop fuel sp new t = (sp', t', .pending)),
+    ∃ ops, sp' = applyOps sp ops ∧ t'.wlog = t.wlog ∧
+      sp'.output = sp.output ++ C03S.grownAll sp ops ∧
+      new ++ t.input = Str.fedBytes ops ++ t'.input
+
+theorem C08Clause10_holds : C08Clause10 := by
+  unfold C08Clause10
+  exact @record_boundary_holds_back
+
+end Fcgi.C08R
+end
+
+section
+namespace Fcgi.C08R
+open Fcgi Fcgi.Req Fcgi.Str Fcgi.Async Fcgi.Run Fcgi.Spec
+/-- at a stall with the mutex free the ONLY place where generated reply bytes can still sit in a buffer is `close()` parked in `record_boundary()`, and then the parser is in the middle of a record  (= `Fcgi.C08R.stall_pending_output_partial`, `Props/C08Replies.lean`) -/
+def C08Clause11 : Prop :=
+  ∀ {fuel n : Nat} {sa : Option Nat} {c c' : Conn} (hinv : C08Inv.CInv c)
+    (h : runTask fuel c n sa = (c', "STALL")) (hm : c'.env.mutex = none),
+    pendingOut c'.phase = [] ∨
+      ∃ r st al, c'.phase = .closing r .inBoundary st al ∧ r.sp.isRecordBoundary = false
+
+theorem C08Clause11_holds : C08Clause11 := by
+  unfold C08Clause11
+  exact @stall_pending_output_partial
+
+end Fcgi.C08R
+end
+
+section
+namespace Fcgi.C08R
+open Fcgi Fcgi.Req Fcgi.Str Fcgi.Async Fcgi.Run Fcgi.Spec
+/-- … and that exception is real: "nothing generated is unflushed at such a stall" is refuted (handler returns mid-record, `record_boundary()` runs over a complete GetValues and parks inside the next record; crate and model agree)  (= `Fcgi.C08R.stall_log_has_all_owed_replies_full_false`, `Props/C08Replies.lean`) -/
+def C08Clause12 : Prop :=
+  ¬ stall_log_has_all_owed_replies_full
+
+theorem C08Clause12_holds : C08Clause12 := by
+  unfold C08Clause12
+  exact @stall_log_has_all_owed_replies_full_false
+
+end Fcgi.C08R
+end
+
 namespace Fcgi.Headline
 /-- **C08** — see the section comment above for the clause-by-clause reading. -/
 theorem C08_headline :
@@ -2008,8 +2144,14 @@ theorem C08_headline :
     Fcgi.C08Inv.C08Clause3 ∧
     Fcgi.C08Inv.C08Clause4 ∧
     Fcgi.C08Inv.C08Clause5 ∧
-    Fcgi.C08Inv.C08Clause6 :=
-  ⟨Fcgi.C08Inv.C08Clause1_holds, Fcgi.C08Inv.C08Clause2_holds, Fcgi.C08Inv.C08Clause3_holds, Fcgi.C08Inv.C08Clause4_holds, Fcgi.C08Inv.C08Clause5_holds, Fcgi.C08Inv.C08Clause6_holds⟩
+    Fcgi.C08Inv.C08Clause6 ∧
+    Fcgi.C08R.C08Clause7 ∧
+    Fcgi.C08R.C08Clause8 ∧
+    Fcgi.C08R.C08Clause9 ∧
+    Fcgi.C08R.C08Clause10 ∧
+    Fcgi.C08R.C08Clause11 ∧
+    Fcgi.C08R.C08Clause12 :=
+  ⟨Fcgi.C08Inv.C08Clause1_holds, Fcgi.C08Inv.C08Clause2_holds, Fcgi.C08Inv.C08Clause3_holds, Fcgi.C08Inv.C08Clause4_holds, Fcgi.C08Inv.C08Clause5_holds, Fcgi.C08Inv.C08Clause6_holds, Fcgi.C08R.C08Clause7_holds, Fcgi.C08R.C08Clause8_holds, Fcgi.C08R.C08Clause9_holds, Fcgi.C08R.C08Clause10_holds, Fcgi.C08R.C08Clause11_holds, Fcgi.C08R.C08Clause12_holds⟩
 end Fcgi.Headline
 
 
